@@ -13,7 +13,7 @@ PROP = "C10"
 LEVEL = "exploration"
 SHARDS = {"quick": 2, "thorough": 16}
 THOROUGH_DEPTH = 30      # thorough tier = this many times the base thorough budget (VERIF_DEPTH overrides)
-ROUTES = ["rpy/Quaternion", "rpy/QuaternionArray", "rpy/free", "rpy/Quaternion.from_rpy", "rpy/Quaternion.from_angles", "rpy/QuaternionArray.from_rpy", "rpy/cardan", "axang/Quaternion", "axang/free", "axang/DCM",
+ROUTES = ["rpy/Quaternion", "rpy/QuaternionArray", "rpy/free", "rpy/Quaternion.from_rpy", "rpy/Quaternion.from_angles", "rpy/QuaternionArray.from_rpy", "rpy/cardan", "rpy/cardan[in_deg]", "rpy/Quaternion(angles=)", "rpy/QuaternionArray(angles=)", "axang/Quaternion", "axang/free", "axang/DCM",
           "explog/versor", "explog/nonversor", "power", "euler/DCM(euler=)", "euler/rot_seq", "euler/DCM(rpy=)",
           "euler/DCM(x,y,z)", "euler/rotation", "DCM.log", "explog/reused object"]
 ANG_REGIONS = ["generic", "tiny", "small", "nearpi", "band", "zero"]
@@ -109,6 +109,9 @@ def check_rpy(case, ctx):
         "rpy/Quaternion.from_angles": (lambda: np.asarray(ahrs.Quaternion().from_angles(rpy.copy())), lambda q: np.asarray(ahrs.Quaternion(q.copy()).to_angles())),
         "rpy/QuaternionArray.from_rpy": (lambda: np.asarray(ahrs.QuaternionArray().from_rpy(A3.copy()))[0], lambda q: np.asarray(ahrs.QuaternionArray(q.copy()[None]).to_angles())[0]),
         "rpy/cardan": (lambda: o.cardan2q(rpy.copy()), lambda q: o.q2cardan(q.copy())),
+        "rpy/cardan[in_deg]": (lambda: o.cardan2q(np.degrees(rpy), in_deg=True), lambda q: np.radians(o.q2cardan(q.copy(), in_deg=True))),
+        "rpy/Quaternion(angles=)": (lambda: np.asarray(ahrs.Quaternion(angles=rpy.copy())), lambda q: np.asarray(ahrs.Quaternion(q.copy()).to_angles())),
+        "rpy/QuaternionArray(angles=)": (lambda: np.asarray(ahrs.QuaternionArray(angles=A3.copy()))[0], lambda q: np.asarray(ahrs.QuaternionArray(q.copy()[None]).to_angles())[0]),
     }
     for r, (fwd, back) in routes.items():
         out = call(fwd)
